@@ -104,6 +104,8 @@ T = [
 
 
 _ROW_HITS = {}
+# sites that panic on an out-of-range position: whether the position is always in range is a value question
+BOUNDS_KINDS = ("index", "div", "split_at", "Vec::remove", "Vec::swap_remove", "Vec::insert", "Vec::drain", "Vec::split_off", "String::remove")
 MESSAGE_KINDS = ("expect", "panic", "unreachable", "assert", "assert_eq", "assert_ne", "todo", "unimplemented", "expect_err")
 _ROW_CRATES = {}
 
@@ -264,7 +266,7 @@ def r08a(P, R):
     for p, key, skey, kind, what, loc in deferred:
         rows = inherited_rows(P, P.fns[p], kind, what)
         if not rows:
-            if kind in ("index", "div"):
+            if kind in BOUNDS_KINDS:
                 # a bounds / zero check the table has not seen: whether the index is always in range is a value question this
                 # inventory cannot settle either way (string slicing by computed offsets is decided by R08-c)
                 R.undecided("R08-a", "unreviewed-bounds:" + skey, "new `%s` site on %s in %s: not in the panic table, range not decided" % (kind, what, p), loc=loc)
@@ -425,14 +427,29 @@ def r08b(P, R):
         ok = bool(cs) and has_field(pv.atoms(cs[0]["args"][0]), "nitrogql_ast::selection_set::FragmentSpread", "fragment_name")
         R.check("R08-b", "guard:" + short(p), ok, "spread name tested against the seen list before descending", "%s lost its seen-fragment guard" % p, loc=f.loc())
     # the directive recursion search terminates: seen set checked before expansion
-    cr = P.fn("nitrogql_checker::type_system_checker::check_directive_recursion::check_directive_recursion")
-    mq = MirQ(P.mir[cr.path])
-    cont = mq.calls_to(lambda q: q.endswith("HashSet::contains"))
-    ins = mq.calls_to(lambda q: q.endswith("HashSet::insert"))
-    ext = mq.calls_to(lambda q: q.endswith("::extend"))
-    ok = bool(cont) and bool(ins) and bool(ext) and all(any(mq.dominates(i, e) for i in ins) for e in ext)
-    R.check("R08-b", "directive-search-terminates", ok, "a directive is expanded only after being inserted into the seen set (each at most once)",
-            "the directive recursion search expands a directive without marking it seen: it may not terminate", loc=cr.loc())
+    cr = P.fn("nitrogql_checker::type_system_checker::check_directive_recursion::check_directive_recursion", required=False)
+    if cr is None or cr.path not in P.mir:
+        R.undecided("R08-b", "directive-search-terminates", "check_directive_recursion not found")
+    else:
+        mq = MirQ(P.mir[cr.path])
+        SETS = ("HashSet::insert", "BTreeSet::insert", "IndexSet::insert")
+        ins = mq.calls_to(lambda q: q.endswith(SETS))
+        ext = mq.calls_to(lambda q: q.endswith("::extend") or q.endswith("Vec<T, A>::push") or q.endswith("VecDeque<T, A>::push_back"))
+        # worklist growth = extend/push on a collection of directive definitions
+        any_set = [x for x in cr.walk() if x.get("k") == "MethodCall" and ("HashSet" in norm(x.get("recv_ty", "")) or "BTreeSet" in norm(x.get("recv_ty", "")))]
+        grow = [x for x in cr.walk() if x.get("k") == "MethodCall" and x["method"] in ("extend", "push", "push_back") and "DirectiveDefinition" in norm(x.get("recv_ty", ""))]
+        if not any_set and grow:
+            R.violated("R08-b", "directive-search-terminates", "the directive recursion search expands directives without any seen-set: a directive "
+                       "that (indirectly) uses itself makes the search loop forever", loc=cr.loc())
+        elif not grow or not ext:
+            R.undecided("R08-b", "directive-search-terminates", "the worklist of the directive recursion search was not recognised", loc=cr.loc())
+        elif not ins:
+            R.violated("R08-b", "directive-search-terminates", "the directive recursion search never marks a directive as seen (no insert into the "
+                       "seen-set): it may not terminate", loc=cr.loc())
+        else:
+            ok = all(any(mq.dominates(i, e) for i in ins) for e in ext)
+            R.check("R08-b", "directive-search-terminates", ok, "a directive is expanded only after being inserted into the seen set (each at most once)",
+                    "the directive recursion search expands a directive without marking it seen: it may not terminate", loc=cr.loc())
 
 
 def r08c(P, R):
@@ -529,10 +546,18 @@ def r08c(P, R):
     R.check("R08-c", "indent-units", any(c.get("k") == "MethodCall" and c["method"] == "char_indices" for c in fi.walk()), "indentation measured in chars",
             "first_non_space_byte_index no longer counts chars", loc=fi.loc())
     # generate: the option guard precedes the expects
-    rg = P.fn("nitrogql_cli::generate::run_generate")
-    errs = [n for n in rg.walk() if n.get("k") == "Struct" and "rest" not in n and norm(n.get("variant", "")).endswith("CliError::OptionRequired")]
-    R.check("R08-c", "schema-output-guard", len(errs) == 1, "missing schemaOutput/schemaModuleSpecifier is a diagnostic",
-            "run_generate lost its OptionRequired guard: the later expect() becomes reachable from configuration", loc=rg.loc())
+    rg = P.fn("nitrogql_cli::generate::run_generate", required=False)
+    if rg is None:
+        R.undecided("R08-c", "schema-output-guard", "run_generate not found")
+    else:
+        scope = [P.fns[p] for p in P.reachable([rg]) if p.startswith("nitrogql_cli::")]
+        errs = [n for f in scope for n in f.walk() if n.get("k") == "Struct" and "rest" not in n and norm(n.get("variant", "")).endswith("CliError::OptionRequired")]
+        expects = [1 for f in scope for k, kind, what, line, node in site_keys(f) if kind == "expect" and what.startswith("This should be prevented")]
+        if expects:
+            R.check("R08-c", "schema-output-guard", len(errs) >= 1, "missing schemaOutput/schemaModuleSpecifier is a diagnostic",
+                    "run_generate lost its OptionRequired guard: the later expect() becomes reachable from configuration", loc=rg.loc())
+        else:
+            R.holds("R08-c", "schema-output-guard", "no expect() depends on the option guard any more (%d OptionRequired diagnostics)" % len(errs), loc=rg.loc())
     # parse_config returns None on invalid YAML
     pc = P.fn("nitrogql_config_file::parse_config::parse_config")
     bad = [k for k, kind, what, line, node in site_keys(pc)]
